@@ -197,8 +197,6 @@ static int run_daemon(const char *path) {
 }
 
 int main(int argc, char *argv[]) {
-    g_argc = argc;
-    g_argv = argv;
 
     if (argc < 2) {
         fprintf(stderr, "Usage: %s [--daemon] <file.nvm>\n", argv[0]);
@@ -225,6 +223,14 @@ int main(int argc, char *argv[]) {
         fprintf(stderr, "Error: No .nvm file specified\n");
         return 1;
     }
+
+    /* The program's argument vector starts at the program, as it does for a compiled
+     * executable: argv[0] is the module, not this tool and its options. */
+    static char *prog_argv[2];
+    prog_argv[0] = (char *)nvm_path;
+    prog_argv[1] = NULL;
+    g_argc = 1;
+    g_argv = prog_argv;
 
     if (daemon_mode) {
         return run_daemon(nvm_path);
